@@ -1847,6 +1847,8 @@ class Engine:
         return self.binop(e.op, a, b)
 
     def binop(self, op, a, b, inplace=False):
+        if isinstance(a, SArr) or isinstance(b, SArr):
+            return self.sarr_binary(lambda x, y: self.binop(op, x, y), a, b)
         if isinstance(a, (NDArr,)) or isinstance(b, (NDArr,)):
             if isinstance(op, ast.MatMult):
                 return self.matmul(a, b)
@@ -2013,6 +2015,26 @@ class Engine:
         if yl:
             return [self._nd_zip(f, x, q) for q in y]
         return f(x, y)
+
+    def sarr_binary(self, f, a, b):
+        """elementwise operation on symbolic rank-1 arrays / scalars (lazy map)"""
+        sa, sb = isinstance(a, SArr), isinstance(b, SArr)
+        if sa and sb:
+            if a.rank != b.rank:
+                raise EngineError('broadcast of symbolic arrays of different rank')
+            ac, bc = a.copy(), b.copy()
+            r = SArr(lambda idx: f(ac.read(idx), bc.read(idx)), a.rank, 'real', 'map', a.length)
+            r.same_len = (a.length, b.length)
+            return r
+        if sa:
+            if not (is_num(b) or isinstance(b, Opt)):
+                raise EngineError('symbolic array with %r' % (b,))
+            ac = a.copy()
+            return SArr(lambda idx: f(ac.read(idx), b), a.rank, 'real', 'map', a.length)
+        if not (is_num(a) or isinstance(a, Opt)):
+            raise EngineError('symbolic array with %r' % (a,))
+        bc = b.copy()
+        return SArr(lambda idx: f(a, bc.read(idx)), b.rank, 'real', 'map', b.length)
 
     def matmul(self, a, b):
         A = a.data
